@@ -6,7 +6,7 @@ H=$(git -C /repo rev-parse HEAD)
 git -C $WT checkout -q --detach $H || exit 9
 rm -f $WT/mut_base* $WT/mut_baseline*
 for n in 1 2; do
-  m=$((n+2))
+  m=$((n+${OFFSET:-2}))
   for e in diff txt; do cp $WT/mut$n.$e $WT/mut$m.$e; done; cp $WT/mut${n}_demo.py $WT/mut${m}_demo.py
   echo "=== $P mut$n (stored as mut$m)"
   grep '^[-+]' $WT/mut$n.diff | grep -v '^+++\|^---' | cut -c1-160
